@@ -444,6 +444,249 @@ example : ∃ s r, resolve 9 {} [.chunk [0x40], .pend, .chunk [0x54, 0x80], .pen
 
 end limitedUni
 
+/-! ## Several WebTransport uni streams buffered at once (`wt_uni_streams`) -/
+
+section buffered
+open H3.UniAccept H3.Lemmas.C04
+
+/-- what the peer put on one uni stream: the QUIC stream id, the session id in its header, the
+    payload behind the header, and how the transport delivers these bytes (any cutting, `Pending`
+    anywhere, FIN / RESET behind them or not at all) -/
+structure Sent where
+  stream : Nat
+  sid : Nat
+  payload : List Nat
+  sc : List UniAccept.Ev
+deriving DecidableEq
+
+def Sent.OK (x : Sent) : Prop :=
+  x.sid < 2^62 ∧ ScriptWF x.sc ∧ bytesOf x.sc = uniHeader x.sid ++ x.payload
+
+def Sent.toIn (x : Sent) : UniIn := ⟨x.stream, x.sc⟩
+
+/-- who a stream is: its QUIC id, its session id, its payload -/
+def Sent.ident (x : Sent) : Nat × Nat × List Nat := (x.stream, x.sid, x.payload)
+
+/-- who a buffered / surfaced entry claims to be: the stream it is, the session id reported with it,
+    and the bytes a reader of its `BufRecvStream` can still obtain (buffered ++ to come) -/
+def ident (e : WtUni) : Nat × Nat × List Nat := (e.stream, e.session, e.rd.buf.flatten ++ bytesOf e.script)
+
+/-- arrivals and `accept_uni` polls, in any order -/
+inductive Act where
+  | arrive (x : Sent)
+  | accept
+
+def Act.op : Act → AOp
+  | .arrive x => .arrive x.toIn
+  | .accept => .accept
+
+def arrived : List Act → List Sent
+  | [] => []
+  | .arrive x :: r => x :: arrived r
+  | .accept :: r => arrived r
+
+private theorem uniFate_ok (x : Sent) (hx : x.OK) :
+    ∃ rd sc, uniFate true x.sc = .surface x.sid rd sc ∧ rd.buf.flatten ++ bytesOf sc = x.payload := by
+  obtain ⟨hsid, hwf, hbytes⟩ := hx
+  obtain ⟨s, r, h1, h2, h3, h4⟩ := C19_uni_payload_after_header x.sid hsid x.payload x.sc hwf hbytes
+  refine ⟨Rd.ofUni s, uniScript s r, ?_, ?_⟩
+  · have hi : intoStream s = some (.wtUni x.sid) := by
+      unfold intoStream
+      rw [h2, h3]
+      simp [STREAM_CONTROL, STREAM_PUSH, STREAM_ENCODER, STREAM_DECODER, STREAM_WEBTRANSPORT_UNI]
+    unfold uniFate
+    rw [h1]
+    simp only [hi, if_true]
+  · have hflat : (Rd.ofUni s).buf.flatten = s.buf := by
+      unfold Rd.ofUni
+      by_cases hb : s.buf = []
+      · simp [hb]
+      · simp [if_neg hb]
+    have hfut : bytesOf (uniScript s r) = future s r := by
+      unfold uniScript future
+      split
+      · rename_i he; simp [he]
+      · rename_i he; simp [he, bytesOf]
+      · rename_i c he; simp [he, bytesOf]
+    rw [hflat, hfut]; exact h4
+
+/-- one `poll_accept_recv` over pending streams that all carry a complete WebTransport header:
+    every one of them is pushed, with its own identity, in the order of `pending_recv_streams` -/
+private theorem pass_fold (P : List Sent) (hP : ∀ x ∈ P, x.OK) (acc : Accepted) :
+    ∃ es : List WtUni, (P.map Sent.toIn).foldl (Accepted.passOne true) acc = { acc with wt := acc.wt ++ es } ∧
+      es.map ident = P.map Sent.ident := by
+  induction P generalizing acc with
+  | nil => exact ⟨[], by simp, rfl⟩
+  | cons x r ih =>
+    obtain ⟨rd, sc, hf, hb⟩ := uniFate_ok x (hP x (by simp))
+    obtain ⟨es, he, hi⟩ := ih (fun y hy => hP y (by simp [hy])) { acc with wt := acc.wt ++ [⟨x.stream, x.sid, rd, sc⟩] }
+    refine ⟨⟨x.stream, x.sid, rd, sc⟩ :: es, ?_, ?_⟩
+    · simp only [List.map_cons, List.foldl_cons]
+      have : Accepted.passOne true acc x.toIn = { acc with wt := acc.wt ++ [⟨x.stream, x.sid, rd, sc⟩] } := by
+        unfold Accepted.passOne
+        simp only [Sent.toIn, hf]
+      rw [this, he]
+      simp
+    · simp only [List.map_cons, hi]
+      congr 1
+      simp only [ident, Sent.ident, hb]
+
+private theorem pass_ok (a : Accepted) (P : List Sent) (hp : a.pending = P.map Sent.toIn) (hP : ∀ x ∈ P, x.OK) :
+    (a.pass true).pending = [] ∧ (a.pass true).wt.map ident = a.wt.map ident ++ P.map Sent.ident := by
+  obtain ⟨es, he, hi⟩ := pass_fold P hP { pending := [], wt := a.wt }
+  unfold Accepted.pass
+  rw [hp, he]
+  simp [hi]
+
+private theorem popLast_none {α} (l : List α) (h : popLast l = none) : l = [] := by
+  unfold popLast at h
+  cases hr : l.reverse with
+  | nil => simpa using hr
+  | cons x r => rw [hr] at h; simp at h
+
+private theorem popLast_some {α} (l : List α) (x : α) (r : List α) (h : popLast l = some (x, r)) : l = r ++ [x] := by
+  unfold popLast at h
+  cases hr : l.reverse with
+  | nil => rw [hr] at h; simp at h
+  | cons y t =>
+    rw [hr] at h
+    simp at h
+    obtain ⟨rfl, rfl⟩ := h
+    have := congrArg List.reverse hr
+    simpa using this
+
+private theorem keep_identity_aux (acts : List Act) :
+    ∀ (a : Accepted) (P : List Sent), a.pending = P.map Sent.toIn → (∀ x ∈ P, x.OK) → (∀ x ∈ arrived acts, x.OK) →
+      List.Perm ((runAccepts true a (acts.map Act.op)).1.map ident ++
+                 ((runAccepts true a (acts.map Act.op)).2.pass true).wt.map ident)
+                (a.wt.map ident ++ (P ++ arrived acts).map Sent.ident) ∧
+      ((runAccepts true a (acts.map Act.op)).2.pass true).pending = [] := by
+  induction acts with
+  | nil =>
+    intro a P hp hP _
+    obtain ⟨h1, h2⟩ := pass_ok a P hp hP
+    simp only [List.map_nil, runAccepts, List.nil_append, arrived, List.append_nil]
+    exact ⟨by rw [h2], h1⟩
+  | cons act rest ih =>
+    intro a P hp hP hA
+    cases act with
+    | arrive x =>
+      have hx : x.OK := hA x (by simp [arrived])
+      have := ih (a.arrive x.toIn) (P ++ [x]) (by simp [Accepted.arrive, hp])
+        (by intro y hy; rcases List.mem_append.mp hy with h | h
+            · exact hP y h
+            · simp at h; rw [h]; exact hx)
+        (fun y hy => hA y (by simp [arrived, hy]))
+      simpa [runAccepts, Act.op, arrived, Accepted.arrive, List.append_assoc] using this
+    | accept =>
+      obtain ⟨h1, h2⟩ := pass_ok a P hp hP
+      have hA' : ∀ x ∈ arrived rest, x.OK := fun y hy => hA y (by simpa [arrived] using hy)
+      simp only [List.map_cons, Act.op, runAccepts, arrived]
+      unfold Accepted.acceptUni
+      cases hpop : popLast (a.pass true).wt with
+      | none =>
+        have hnil := popLast_none _ hpop
+        have := ih (a.pass true) [] (by simp [h1]) (by simp) hA'
+        simp only [List.nil_append] at this
+        rw [hnil] at h2
+        simp only [List.map_nil] at h2
+        have h3 : a.wt.map ident ++ (P ++ arrived rest).map Sent.ident = [] ++ (arrived rest).map Sent.ident := by
+          rw [List.map_append, ← List.append_assoc, ← h2]
+        rw [h3]
+        simpa [hnil] using this
+      | some xr =>
+        obtain ⟨x, r⟩ := xr
+        have hl := popLast_some _ _ _ hpop
+        have := ih { a.pass true with wt := r } [] (by simp [h1]) (by simp) hA'
+        simp only [List.nil_append] at this
+        refine ⟨?_, this.2⟩
+        have h3 : a.wt.map ident ++ (P ++ arrived rest).map Sent.ident =
+            (r.map ident ++ [ident x]) ++ (arrived rest).map Sent.ident := by
+          rw [List.map_append, ← List.append_assoc, ← h2, hl]
+          simp
+        rw [h3]
+        simp only [List.map_cons, List.cons_append, List.append_assoc]
+        refine List.Perm.trans (List.Perm.cons _ this.1) ?_
+        exact List.perm_middle.symm
+
+/-- **Buffered streams keep their identity.**  The peer opens any number of WebTransport uni
+    streams — any QUIC stream ids, any session ids below 2^62 (the session's own or not), any
+    payloads, each delivered in any cutting with `Pending` anywhere — and the application calls
+    `accept_uni` any number of times, arrivals and calls interleaved in ANY order (`acts`).  Then
+    the entries surfaced by the calls, together with the entries still buffered in
+    `wt_uni_streams` once `poll_accept_recv` has run again, are — as triples (QUIC stream, session
+    id reported, bytes a reader of the handed-over `BufRecvStream` obtains: buffered ++ still to
+    come) — a PERMUTATION of the triples (stream, session id the peer wrote in ITS header, ITS
+    payload) of the streams that arrived: every stream is surfaced at most once, nothing is
+    surfaced that did not arrive, no stream is surfaced with another stream's session id or
+    another stream's bytes, none is lost; and no stream with a complete header is left unresolved.
+    The ORDER in which buffered streams are surfaced (the code pops the one pushed last) is not
+    part of the claim. -/
+theorem C19_buffered_streams_keep_identity (acts : List Act) (hok : ∀ x ∈ arrived acts, x.OK) :
+    List.Perm ((runAccepts true {} (acts.map Act.op)).1.map ident ++
+               ((runAccepts true {} (acts.map Act.op)).2.pass true).wt.map ident)
+              ((arrived acts).map Sent.ident) ∧
+    ((runAccepts true {} (acts.map Act.op)).2.pass true).pending = [] := by
+  have := keep_identity_aux acts {} [] rfl (by simp) hok
+  simpa using this
+
+/-- **`accept_uni` waits only when there is nothing to surface.**  In a state whose pending streams
+    all carry a complete WebTransport header (`P`), with the extension enabled, `accept_uni`
+    answers `Pending` iff `wt_uni_streams` is empty and no stream is pending; otherwise it
+    surfaces one of them, with its own identity (previous theorem). -/
+theorem C19_accept_uni_waits_only_when_nothing_is_buffered (a : Accepted) (P : List Sent)
+    (hp : a.pending = P.map Sent.toIn) (hP : ∀ x ∈ P, x.OK) :
+    ((a.acceptUni true).1 = none ↔ a.wt = [] ∧ P = []) := by
+  obtain ⟨_, h2⟩ := pass_ok a P hp hP
+  unfold Accepted.acceptUni
+  cases hpop : popLast (a.pass true).wt with
+  | none =>
+    have hnil := popLast_none _ hpop
+    rw [hnil] at h2
+    simp only [List.map_nil] at h2
+    have h3 := congrArg List.length h2
+    simp only [List.length_nil, List.length_append, List.length_map] at h3
+    simp only [true_iff]
+    exact ⟨List.length_eq_zero_iff.mp (by omega), List.length_eq_zero_iff.mp (by omega)⟩
+  | some xr =>
+    obtain ⟨x, r⟩ := xr
+    have hl := popLast_some _ _ _ hpop
+    simp only [reduceCtorEq, false_iff]
+    intro ⟨hw, hPn⟩
+    rw [hl, hw, hPn] at h2
+    simp at h2
+
+/-! non-vacuity: three streams (QUIC ids 6, 10, 14) for the sessions 4, 8 and 12 with the payloads
+    `aa`, `bb`, `cc` (the second header cut inside, the third with FIN behind it); two arrive, one
+    accept, the third arrives, two more accepts: surfaced 10, 14, 6 — each with its own session id
+    and its own bytes -/
+def s6 : Sent := ⟨6, 4, [0xaa], [.chunk [0x40, 0x54, 0x04, 0xaa]]⟩
+def s10 : Sent := ⟨10, 8, [0xbb], [.chunk [0x40], .pend, .chunk [0x54, 0x08], .chunk [0xbb]]⟩
+def s14 : Sent := ⟨14, 12, [0xcc], [.chunk [0x40, 0x54, 0x0c, 0xcc], .fin]⟩
+def three : List Act := [.arrive s6, .arrive s10, .accept, .arrive s14, .accept, .accept]
+
+example : (runAccepts true {} (three.map Act.op)).1.map ident =
+    [(10, 8, [0xbb]), (14, 12, [0xcc]), (6, 4, [0xaa])] := by decide +kernel
+example : (arrived three).map Sent.ident = [(6, 4, [0xaa]), (10, 8, [0xbb]), (14, 12, [0xcc])] := by decide
+example : List.Perm ((runAccepts true {} (three.map Act.op)).1.map ident ++
+      ((runAccepts true {} (three.map Act.op)).2.pass true).wt.map ident)
+    [(6, 4, [0xaa]), (10, 8, [0xbb]), (14, 12, [0xcc])] :=
+  (C19_buffered_streams_keep_identity three (by
+    intro x hx
+    simp [three, arrived] at hx
+    rcases hx with rfl | rfl | rfl
+    · exact ⟨by decide, by intro b hb; simp [s6] at hb; rw [hb]; simp [WF], by decide⟩
+    · exact ⟨by decide, by intro b hb; simp [s10] at hb; rcases hb with rfl | rfl | rfl <;> simp [WF], by decide⟩
+    · exact ⟨by decide, by intro b hb; simp [s14] at hb; rw [hb]; simp [WF], by decide⟩)).1
+-- a fourth accept waits: nothing is buffered any more; a stream that ends inside its header is never surfaced
+example : ((runAccepts true {} (three.map Act.op)).2.acceptUni true).1 = none := by decide +kernel
+example : (runAccepts true {} [.arrive ⟨6, [.chunk [0x40, 0x54], .fin]⟩, .accept]).1 = [] ∧
+    (runAccepts true {} [.arrive ⟨6, [.chunk [0x40, 0x54], .fin]⟩, .accept]).2 = {} := by decide +kernel
+-- with the extension off nothing is surfaced
+example : (runAccepts false {} (three.map Act.op)).1 = [] := by decide +kernel
+
+end buffered
+
 /-! ## What an opened stream puts on the wire -/
 
 section wire
